@@ -47,7 +47,7 @@ theorem facts_pinned :
     Facts.C04.rowsBoundByTotalRows = true ∧
     Facts.C04.checkSheetBoundsRows = true ∧
     Facts.C04.checkRowSizesByGreatest = true ∧
-    Facts.C04.getMergeCellsInPlace = true ∧
+    Facts.C04.getMergeCellsInPlace = false ∧
     Facts.C04.getRowsReturnsMaxRows = true ∧
     Facts.C04.r0RunningCol = true ∧
     Facts.C04.r0KeepsRowAttrs = true := by decide
@@ -205,30 +205,33 @@ rendering `getValueFrom` computed (it used to be that rendering: `1.000000000000
 theorem getCellValue_keeps_stored (v norm : Val) : storedAfterFormattedRead v norm = v := by
   simp [storedAfterFormattedRead, facts_pinned.2.2.2.2.2.1]
 
-/-- clause "read-only calls are pure", `GetMergeCells`, partial: `GetMergeCells` runs
-`mergeOverlapCells` on the stored list itself (fact `getMergeCellsInPlace`); when the stored
-merged ranges are valid and pairwise disjoint (the hypothesis; C03's `normalise_id_on_disjoint`)
-the list after the call is the list before it, hence `GetCellValue` through `mergeCellsParser`
-answers as before for every cell. -/
-theorem getMergeCells_pure_partial (s : Sheet) (ms : List Grid.MObj)
-    (hd : Grid.PairwiseDisjoint ms) :
+/-- clause "read-only calls are pure", `GetMergeCells`: the stored merge list after the call is
+the list before it — the overlapping ranges are merged on a copy — for every list, overlapping or
+not; hence `GetCellValue` through `mergeCellsParser` answers as before for every cell. -/
+theorem getMergeCells_pure (s : Sheet) (ms : List Grid.MObj) :
     getMergeCellsState ms = ms ∧
     ∀ c r, getCellValueM s (getMergeCellsState ms) c r = getCellValueM s ms c r := by
   have h : getMergeCellsState ms = ms := by
-    simp [getMergeCellsState, facts_pinned.2.2.2.2.2.2.2.2.2.2.2.2.2.1, Grid.mergeOverlap_id ms hd]
+    simp [getMergeCellsState, facts_pinned.2.2.2.2.2.2.2.2.2.2.2.2.2.1]
   exact ⟨h, fun c r => by rw [h]⟩
 
-/-- open finding `purity:obs:GetMergeCells:overlapping-merges`, on C03's merge list model: with
-the overlapping ranges D8:F10 and B7:D9 (both accepted by `MergeCell`) `GetCellValue(E7)` returns
-E7's own value; `GetMergeCells` replaces the stored list by its normal form (the single range
-B7:F10), after which the same call is redirected to B7 and returns the empty string. -/
-theorem finding_getMergeCells_overlapping :
+/-- what `GetMergeCells` reports for a valid pairwise disjoint list is the list itself (C03's
+`mergeOverlap_id`) -/
+theorem getMergeCells_result_disjoint (ms : List Grid.MObj) (hd : Grid.PairwiseDisjoint ms) :
+    getMergeCellsResult ms = ms := Grid.mergeOverlap_id ms hd
+
+/-- regression witness of the repaired defect `purity:obs:GetMergeCells:overlapping-merges`, on
+C03's merge list model: with the overlapping ranges D8:F10 and B7:D9 (both accepted by `MergeCell`)
+`GetCellValue(E7)` returns E7's own value; `GetMergeCells` reports the single range B7:F10; had it
+stored that normal form (as it did), the same `GetCellValue` would be redirected to B7. -/
+theorem regression_getMergeCells_in_place :
     let s : Sheet := (List.range 7).map fun i =>
       ⟨i + 1, false, if i = 6 then [⟨5, 7, ['v'], false, false⟩] else []⟩
     let ms := [mrange 4 8 6 10, mrange 2 7 4 9]
     getCellValueM s ms 5 7 = ['v'] ∧
-    getMergeCellsState ms = [mrange 2 7 6 10] ∧
-    getCellValueM s (getMergeCellsState ms) 5 7 = [] := by decide
+    getMergeCellsResult ms = [mrange 2 7 6 10] ∧
+    getCellValueM s (getMergeCellsResult ms) 5 7 = [] ∧
+    getCellValueM s (getMergeCellsState ms) 5 7 = ['v'] := by decide
 
 /-- clause "read-only calls are pure", `GetCellFormula` on a dependent cell of a shared formula:
 the stored formula text of the cell after the read is the text before it (the expanded formula
